@@ -81,7 +81,7 @@ Composition == pc = "done" => th = Header(g, enc, sites, srt, split) /\ inds = H
 
 (* property layer on the model's result *)
 Done == pc = "done"
-OtherEnc == IF enc = "shank" /\ "geom" \in Encodings(g) THEN "geom" ELSE "shank"
+OtherEnc == IF enc \in {"shank", "both"} /\ "geom" \in Encodings(g) THEN "geom" ELSE "shank"
 SitesOnce == Done => SitesOnceP(sites, split, th)
 Describes == Done => DescribesP(g, sites, split, th)
 Unsorted == (Done /\ ~srt) => UnsortedP(th, inds)
